@@ -5,10 +5,13 @@
    again one (closure, which makes any depth of re-printing and joining stay in the class),
    and Redact / StripMarkers distribute over it.  The evaluator is proved to issue exactly that
    history for a RedactableString/Bytes operand of Sprint and of Sprintf under %v / %s
-   (C08_sprint_of_a_redactable_is_identity, C08_sprintf_...); under widths, inside containers
+   (C08_sprint_of_a_redactable_is_identity, C08_sprintf_...); Join(delim, rs) is proved, through
+   the StringBuilder and one Print per element and delimiter, to return the concatenation with
+   the delimiter for every number of elements (C08_join_is_concatenation), which is again a
+   redactable whose Redact/StripMarkers are the joins of the parts'; inside containers
    and under wrappers it is decided by the correspondence and the black-box equalities. *)
 From Redact Require Import Bytes Tokens Utf8 Markers Buffer Ops BufInv LBuf Printer Api.
-From Redact Require Import TokensP MarkersP BufInvP BufContentP ComposeP RoutesP Forward FormatP ReprintAllP.
+From Redact Require Import TokensP MarkersP BufInvP BufContentP ComposeP RoutesP Forward FormatP ReprintAllP JoinP.
 Import List ListNotations.
 
 Theorem C08_raw_copy_partial : forall r, last_invalid r = false ->
@@ -64,7 +67,43 @@ Proof. exact sprint_idempotent. Qed.
 Print Assumptions C08_sprint_idempotent.
 
 
+(* util.go Join: one Print per element and per delimiter on a StringBuilder; for EVERY number of
+   elements the result is the concatenation with the delimiter, and the call always returns *)
+Theorem C08_join_is_concatenation : forall k env d rs o, last_invalid d = false ->
+  Forall (fun r => last_invalid r = false) rs ->
+  join (S (S k)) env d rs = ROk o -> o_bytes o = intercalate d rs.
+Proof. exact join_is_concatenation. Qed.
+Print Assumptions C08_join_is_concatenation.
+
+Theorem C08_join_always_returns : forall k env d rs, last_invalid d = false ->
+  Forall (fun r => last_invalid r = false) rs -> exists o, join (S (S k)) env d rs = ROk o.
+Proof. exact join_total. Qed.
+Print Assumptions C08_join_always_returns.
+
+(* the joined text is again a well-formed, line-safe redactable; Redact and StripMarkers of it
+   are the joins of the redacted / stripped parts *)
+Theorem C08_join_closed_and_distributes : forall d rs,
+  Redactable d /\ linesafe (lex d) = true -> Forall (fun r => Redactable r /\ linesafe (lex r) = true) rs ->
+  (Redactable (intercalate d rs) /\ linesafe (lex (intercalate d rs)) = true) /\
+  redact_b (intercalate d rs) = intercalate (redact_b d) (map redact_b rs) /\
+  strip_b (intercalate d rs) = intercalate (strip_b d) (map strip_b rs).
+Proof.
+  intros d rs Hd Hall. apply good_redactable in Hd.
+  assert (Forall (fun r => Good r false 0) rs) as Hall'.
+  { eapply Forall_impl; [|exact Hall]. intros a Ha. now apply good_redactable. }
+  split; [apply good_redactable; now apply join_good | now apply join_redact_strip].
+Qed.
+Print Assumptions C08_join_closed_and_distributes.
+
+
 Example C08_nonvacuous :
   let r := [97; 226;128;185; 98; 226;128;186; 10; 226;128;185; 99; 226;128;186]%N in
   last_invalid r = false /\ redactableb r = true /\ redact_b (r ++ r) = redact_b r ++ redact_b r /\ redact_b r <> r.
 Proof. vm_compute. repeat split; congruence. Qed.
+
+Example C08_join_nonvacuous :
+  let r := [97; 226;128;185; 98; 226;128;186]%N in let d := [44; 32]%N in
+  match join 5 (mkEnv [] None) d [r; []; r] with
+  | ROk o => o_bytes o = r ++ d ++ d ++ r /\ Forall (fun r => last_invalid r = false) [r; []; r]
+  | _ => False end.
+Proof. vm_compute. split; [reflexivity | repeat constructor]. Qed.
